@@ -240,6 +240,22 @@ def cli_case(arg):
         compare("layout:single-pack", lay)
         subprocess.run([G.REAL_GIT, "--git-dir", lay, "gc", "-q"], env=env, stdout=-1, stderr=-1)
         compare("layout:after-gc", lay)
+        # alternates: half of the objects live in another object directory
+        alt = os.path.join(d, "alt")
+        shutil.copytree(g0, alt)
+        altstore = os.path.join(d, "altstore", "objects")
+        os.makedirs(altstore)
+        moved = 0
+        for oid in objs[::2]:
+            src = os.path.join(alt, "objects", oid[:2], oid[2:])
+            if os.path.exists(src):
+                os.makedirs(os.path.join(altstore, oid[:2]), exist_ok=True)
+                os.rename(src, os.path.join(altstore, oid[:2], oid[2:]))
+                moved += 1
+        with open(os.path.join(alt, "objects", "info", "alternates"), "w") as f:
+            f.write(altstore + "\n")
+        if moved:
+            compare("layout:alternates", alt)
         # (b) root orders: explicit ROOTs in several orders (+ duplicates)
         roots = [o.oid for o in m0.refs.values()]
         exr = O.compute(list(m0.refs.values()))
